@@ -81,7 +81,7 @@ func RTSettle(limit time.Duration, calls ...*RTCall) bool {
 			// (a call that is merely waiting for the CPU on a busy machine is "runnable" for as long as it takes: one extension)
 			if !extended {
 				extended = true
-				deadline = time.Now().Add(2 * time.Minute)
+				deadline = time.Now().Add(30 * time.Second)
 				continue
 			}
 			return false
